@@ -2,6 +2,7 @@ package rules
 
 import (
 	"go/token"
+	"go/types"
 
 	"golang.org/x/tools/go/cfg"
 
@@ -20,11 +21,48 @@ import (
 //	                          recorded (ok = true) on the way;
 //	a recorded match ends     from ok = true every path to an attempt takes a "not found" edge of ok (which
 //	the search                cannot be taken) or starts the next exact lookup; ok is not reset in between.
-func c26Route(c *core.Ctx, f *core.FuncInfo) {
+//
+// The search (exact lookup, then patterns) may be written in RouteOf or in a function RouteOf calls: the
+// facts are decided in the function that holds the exact lookup (directly, or through a helper that only
+// makes the lookup and reports whether it found an entry), and no pattern attempt may be reachable from
+// RouteOf other than through that function.
+func c26Route(c *core.Ctx, root *core.FuncInfo) {
 	p := c.P
-	okVar, lookups, consistent := c26CommaOkLookups(f, mdP+"Producer.routingTable")
-	c.Need(okVar != nil && len(lookups) > 0 && consistent, "dest, ok := routingTable[req]")
 	isAttempt := func(cs *core.CallSite) bool { return cs.Name == mdP+"scanfRoute.Name" }
+	var f *core.FuncInfo
+	var okVar *types.Var
+	var lookups []core.Point
+	consistent := false
+	for _, g := range core.ReachableFuncs(p, []*core.FuncInfo{root}, false) {
+		if core.RelPkg(g.Pkg.PkgPath) != "kvdb/multidb" {
+			continue
+		}
+		if v, pts, cons := c26Lookups(g, mdP+"Producer.routingTable", isAttempt); v != nil && len(pts) > 0 {
+			f, okVar, lookups, consistent = g, v, pts, cons
+			break
+		}
+	}
+	c.Need(f != nil && okVar != nil && len(lookups) > 0 && consistent, "dest, ok := routingTable[req]")
+	if f != root {
+		// attempts that RouteOf can reach without entering the search function are not preceded by the exact lookup
+		seen := map[*core.FuncInfo]bool{f: true, root: true}
+		work := []*core.FuncInfo{root}
+		for len(work) > 0 {
+			g := work[0]
+			work = work[1:]
+			for _, l := range append([]*core.FuncInfo{g}, allLits(g)...) {
+				for _, cs := range l.CallsMatching(isAttempt) {
+					c.Fail("exact route wins", "T2 Dominates + T4 GuardedBy", cs.Pos(), "a pattern is tried in "+short(g.Name)+", outside "+short(f.Name)+" which consults the exact table: it can override an exact route of the request")
+				}
+			}
+			for _, h := range core.StaticCallees(g) {
+				if !seen[h] && core.RelPkg(h.Pkg.PkgPath) == "kvdb/multidb" {
+					seen[h] = true
+					work = append(work, h)
+				}
+			}
+		}
+	}
 	tries := f.SitesMay(isAttempt, 2)
 	c.ExpectAtLeast("pattern attempts in RouteOf", len(tries), 1)
 	notOk := func(ft core.Fact) bool {
